@@ -8,7 +8,6 @@ import (
 	"encoding/json"
 	"fmt"
 	"io"
-	"os"
 	"strings"
 
 	"github.com/containerd/stargz-snapshotter/estargz"
@@ -288,11 +287,8 @@ func E(name, typ string, kv ...any) Ent {
 }
 
 // deepChoices: trees of 10000 and more levels cost seconds per input (and the bolt store is cubic in
-// the depth); the quick tier meets them in the suspects stream only.
+// the depth: known finding); they are met in the hand-written stream only.
 func (g *Gen) deepChoices() int {
-	if os.Getenv("VERIF_TIER") == "thorough" {
-		return 7
-	}
 	return 2
 }
 
@@ -343,7 +339,7 @@ func (g *Gen) advNumber(bounds ...int64) any {
 	// whose outcome (slow success, out of memory) depends on the machine.  The same code paths are
 	// reached deterministically by 2^62.. ("makeslice: len out of range", "bytes.Buffer: too large")
 	// and by the 2^40 suspects.
-	consts := []string{"-1", "0", "1", "2", "3", "-2", "-3", "65535", "65536", "1048576", "-2147483648", "-4294967296",
+	consts := []string{"-1", "0", "1", "2", "3", "-2", "-3", "65535", "65536", "1048576", "-65536",
 		"4611686018427387903", "4611686018427387904", "4611686018427387905", "9223372036854775806", "9223372036854775807",
 		"-9223372036854775808", "-9223372036854775807", "-4611686018427387904", "9223372036854775808", "18446744073709551615",
 		"1e30", "1.5", "-0", "1e3"}
@@ -853,7 +849,7 @@ func (g *Gen) Fixed() (out, late []Input) {
 	)
 	// 588493d: TOC offset beyond the blob, hardlink cycle, hardlink to own ancestor directory
 	out = append(out,
-		Input{Class: "fixed:588493d:toc-offset-beyond-blob", Kind: "blob", MustErr: true, Data: append(append([]byte{}, body...), GzipFooter(StargzExtra(fmt.Sprintf("%016x", int64(1)<<40)))...)},
+		Input{Class: "fixed:588493d:toc-offset-beyond-blob", Kind: "blob", MustErr: true, MustErrDB: true, Data: append(append([]byte{}, body...), GzipFooter(StargzExtra(fmt.Sprintf("%016x", int64(1)<<40)))...)},
 		markMust(g.blobInput(gz, "fixed:588493d:hardlink-cycle", tocText(1, []Ent{E("a", "hardlink", "linkName", "b"), E("b", "hardlink", "linkName", "a")}))),
 		markMust(g.blobInput(gz, "fixed:588493d:hardlink-to-parent-dir", tocText(1, []Ent{E("d/", "dir"), E("d/x", "hardlink", "linkName", "d")}))),
 	)
@@ -875,7 +871,7 @@ func (g *Gen) Fixed() (out, late []Input) {
 	// 6332cf7: chunk size that does not tile the merge buffer (passthrough merge sizes 6 and 7
 	// against 4-byte chunks, see ExerciseReader)
 	out = append(out, g.blobInput(gz, "fixed:6332cf7:passthrough-straddle", gz.TOCJSON))
-	late = append(late, g.blobInput(gz, "fixed:42545b8:negative-chunk-size", tocText(1, ents)))
+	late = append(late, g.blobInput(gz, "fixed:42545b8:negative-chunk-size", tocText(1, ents))) // passthrough part: 95288ee
 	return out, late
 }
 
